@@ -11,7 +11,8 @@ the model never does, so that is a correspondence mismatch)
 contents: `a` `b` `c`, `-` = file missing.  ops: w:<c> r:<c> m:<c> p:<c> d (file state changes; m and p keep
 the previous modification time — the model's file state is the content only, theorem
 `reload_decision_ignores_metadata`), e E (notification for the
-config file), o (ignored notification), x:<kind> (watcher failure).
+config file), o (ignored notification), x:<kind> (watcher failure), q:<n> (the next n re-attach attempts of the
+watcher factory fail; 99 = all of them).
 Model output: the callback's content sequence predicted by the model of the code variant the regenerated facts
 say the source is (`codeVariant`) and the callback instants in 100 ms buckets `(t+10)/100`; `intime` is always 1 in
 the model (theorem `at_most_once_after_stabilisation`).
@@ -24,20 +25,21 @@ or longer than D (+100 ms) after a notification delivered after it — the last 
 namespace Gate.C38
 open Gate
 
-def parseOp (tok : String) : Option (Nat × Op String × Bool) :=   -- (time, op, isFileOp)
+def parseOp (tok : String) : Option (Nat × ScriptOp String × Bool) :=   -- (time, op, isFileOp)
   match tok.splitOn ":" with
-  | [t, "w", c] => do pure (← t.toNat?, .write c, true)
-  | [t, "r", c] => do pure (← t.toNat?, .write c, true)
-  | [t, "m", c] => do pure (← t.toNat?, .write c, true)   -- in place, previous mtime restored: a content change
-  | [t, "p", c] => do pure (← t.toNat?, .write c, true)   -- atomic replace carrying the old mtime
-  | [t, "d"] => do pure (← t.toNat?, .write "-", true)
-  | [t, "e"] => do pure (← t.toNat?, .event, false)
-  | [t, "E"] => do pure (← t.toNat?, .event, false)
-  | [t, "o"] => do pure (← t.toNat?, .other, false)
-  | [t, "x", _] => do pure (← t.toNat?, .wclose, false)
+  | [t, "q", n] => do pure (← t.toNat?, .failAttach (← n.toNat?), false)
+  | [t, "w", c] => do pure (← t.toNat?, .step (.write c), true)
+  | [t, "r", c] => do pure (← t.toNat?, .step (.write c), true)
+  | [t, "m", c] => do pure (← t.toNat?, .step (.write c), true)   -- in place, previous mtime restored: a content change
+  | [t, "p", c] => do pure (← t.toNat?, .step (.write c), true)   -- atomic replace carrying the old mtime
+  | [t, "d"] => do pure (← t.toNat?, .step (.write "-"), true)
+  | [t, "e"] => do pure (← t.toNat?, .step (.event), false)
+  | [t, "E"] => do pure (← t.toNat?, .step (.event), false)
+  | [t, "o"] => do pure (← t.toNat?, .step (.other), false)
+  | [t, "x", _] => do pure (← t.toNat?, .step (.wclose), false)
   | _ => none
 
-def parseOps (s : String) : Option (List (Nat × Op String × Bool)) :=
+def parseOps (s : String) : Option (List (Nat × ScriptOp String × Bool)) :=
   if s = "-" then some [] else (s.splitOn ",").mapM parseOp
 
 def showSeq (xs : List String) : String := if xs.isEmpty then "_" else ".".intercalate xs
@@ -66,15 +68,16 @@ def stepCase (c : Case) : String × String :=
         ("bad-script", "-")
       else
         let cfg : Cfg := ⟨R, D⟩
-        let written := ops.filterMap fun (_, o, _) => match o with | .write x => some x | _ => none
+        let written := ops.filterMap fun (_, o, _) => match o with | .step (.write x) => some x | _ => none
         let lastFs := (ops.filterMap fun (t, _, f) => if f then some t else none).getLast?.getD 0
         -- a notification for the config file delivered (watcher attached) after the last file operation
         let tail := match (ops.reverse.span fun (_, _, f) => !f) with | (afterLast, _) => afterLast.reverse
         let failsBefore := fun (t : Nat) => ops.filterMap fun (tx, o, _) =>
-          match o with | .wclose => if tx ≤ t then some tx else none | _ => none
+          match o with | .step .wclose => if tx ≤ t then some tx else none | _ => none
+        let reattachable := !(ops.any fun (_, o, _) => match o with | .failAttach _ => true | _ => false)
         let notified := tail.findSome? fun (t, o, _) =>
           match o with
-          | .event => if watcherUpAt R 60 (failsBefore t) t then some t else none
+          | .step .event => if watcherUpAt R 60 reattachable (failsBefore t) t then some t else none
           | _ => none
         let settled := decide (lastFs + R + D < endT) ||
           (match notified with | some te => decide (te + D + 100 ≤ endT) | none => false)
